@@ -195,14 +195,13 @@ impl Ledger {
             DealSt::Active { sector, last_paid, .. } => (sector, last_paid),
             _ => unreachable!(),
         };
+        // up to and including the start epoch nothing is due and nothing changes: in particular the proposal stays
+        // pending (it could still be published in that epoch, and must not be accepted a second time)
+        if d.start >= epoch {
+            return (BigInt::zero(), false);
+        }
         if last_paid == -1 {
             self.pending.remove(&d.cid);
-        }
-        if d.start > epoch {
-            if let DealSt::Active { last_paid, .. } = &mut self.deals.get_mut(&id).unwrap().st {
-                *last_paid = epoch;
-            }
-            return (BigInt::zero(), false);
         }
         let from = if last_paid > d.start { last_paid } else { d.start };
         let to = std::cmp::min(d.end, epoch);
